@@ -28,7 +28,10 @@ RULE = ('nested dictionaries: depth 0..4, 0..4 entries per level, keys drawn fro
         'size + 1, the same sizes permuted (equal product), another rank with equal product, another rank, each also with '
         'no slice along the axis or with no slice in any leaf; fixed corner cases first (e.g. shapes (2,2,3) / (2,3,2), '
         '(2,6) / (2,3,2), (0,2,3) / (2,3,2)); concat_along_axis on 1..3 trees of one structure, 40% single-slice trees '
-        '(split_axis of the concatenation must give the trees back).  spectral: pairs of small grids '
+        '(split_axis of the concatenation must give the trees back); split_axis with keep_dims True / False on '
+        'same-rank trees, on fixed corner trees with a non-leading axis (axis >= 1, negative axes, leaves of ranks 1..4 '
+        'in one tree) and on random mixed-rank trees: the number of pieces, every piece against np.take along the axis '
+        '(singleton kept at the position of the axis) and the concat / stack round trip.  spectral: pairs of small grids '
         '(both transform implementations, equal / larger / mixed truncations, different verticals).  '
         'dims: layers 1..5, time / sample / realization / user coordinates incl. collisions with the level axis and '
         'grids whose nodal shape equals the modal shape (fixed corner case M=5, L=7, 10x7 nodes, fast layout in every '
@@ -918,6 +921,75 @@ def run(ctx: common.Ctx):
                  f'split_axis(concat_along_axis(trees), keep_dims=True) != trees ({st2})', inp)
 
   # ---- split_axis
+  def split_axis_case(leaves, axis, keep, stream):
+    """one call of split_axis: correspondence with the model, every piece against an independent oracle
+    (np.take along the axis: the piece i of leaf j is leaf[..., i, ...] with the axis kept as a singleton AT ITS
+    POSITION for keep_dims=True, removed otherwise), the number of pieces, and the round trip."""
+    nleaves = len(leaves)
+    n = int(leaves[0].shape[axis]) if nleaves else 0
+    tree = random_tree_of(rng, leaves)
+    inp = dict(shapes=[list(l.shape) for l in leaves], axis=axis, keep_dims=keep, stream=stream)
+    ctx.case(('split_axis', repr(inp)), nontrivial=nleaves >= 1 and n >= 2)
+    st, res = real(lambda: pu.split_axis(tree, axis, keep))
+    ctx.dist[f'split_axis:{st}'] += 1
+    ctx.dist[f'split_axis:stream:{stream}'] += 1
+    if nleaves:
+      ranks = {l.ndim for l in leaves}
+      pos = {axis % l.ndim for l in leaves}
+      ctx.dist[f'split_axis:keep_dims={keep}:axis={"leading" if pos == {0} else "non-leading"}'
+               f'{":negative" if axis < 0 else ""}{":mixed-ranks" if len(ranks) > 1 else ""}'] += 1
+    trees = None
+    if st == 'ok':
+      try:
+        trees = [jax.tree_util.tree_leaves(t) for t in res]
+        if keep:
+          impl = f'ok {enc_trees(trees, axis)}'
+        else:
+          impl = 'ok ' + ('/'.join(enc_arrs(t) for t in trees) if trees else 'N')
+      except Exception as e:  # pylint: disable=broad-except
+        impl = f'ok unencodable pieces: {type(e).__name__}'
+    else:
+      impl = st
+    add(f'tree splitaxis {int(keep)} {enc_leaves(leaves, axis)}', 'split_axis', inp, impl)
+    if st != 'ok' or trees is None:
+      return st
+    equal_sized = nleaves >= 1 and len({int(l.shape[axis]) for l in leaves}) == 1
+    if equal_sized:
+      ctx.expect(len(trees) == n, 'split-axis-count',
+                 f'split_axis returns {len(trees)} pieces for an axis of size {n}', inp)
+      bad = None
+      for i, (piece, t) in enumerate(zip(res, trees)):
+        if jax.tree_util.tree_structure(piece) != jax.tree_util.tree_structure(tree) or len(t) != nleaves:
+          bad = f'piece {i}: tree structure differs from the input'
+          break
+        for j, (got, leaf) in enumerate(zip(t, leaves)):
+          want = np.take(leaf, [i] if keep else i, axis=axis)
+          got = np.asarray(got)
+          if got.shape != want.shape:
+            bad = (f'piece {i}, leaf {j}: shape {list(got.shape)}, expected {list(want.shape)} '
+                   f'({"singleton kept at the position of the axis" if keep else "axis removed"})')
+          elif got.tobytes() != np.ascontiguousarray(want).tobytes():
+            bad = f'piece {i}, leaf {j}: values differ from leaf[..., {i}, ...]'
+          if bad:
+            break
+        if bad:
+          break
+      ctx.expect(bad is None, 'split-axis-piece', f'split_axis(keep_dims={keep}): {bad}', inp)
+    # round trip: concat_along_axis for keep_dims=True, np.stack along the axis otherwise
+    if keep:
+      st2, cat = real(lambda: pu.concat_along_axis(list(res), axis))
+      cl = jax.tree_util.tree_leaves(cat) if st2 == 'ok' else []
+    else:
+      try:
+        cl = [np.stack([np.asarray(t[j]) for t in trees], axis) for j in range(nleaves)]
+        st2 = 'ok'
+      except Exception as e:  # pylint: disable=broad-except
+        st2, cl = f'cannot re-stack the pieces: {type(e).__name__}: {e}', []
+    ctx.expect(st2 == 'ok' and same_arrays(cl, leaves), 'split-axis-roundtrip',
+               f're-assembling split_axis(x) does not give x ({st2}; shapes '
+               f'{[list(np.asarray(c).shape) for c in cl]})', inp)
+    return st
+
   for i in range(ctx.n(40, 400)):
     nleaves = int(rng.choice([0, 1, 2, 3])) if i >= 2 else i
     nd = int(rng.integers(1, 4))
@@ -929,30 +1001,32 @@ def run(ctx: common.Ctx):
       shp = list(rand_rest(nd))
       shp[axis] = n + (1 if unequal and j == 1 else 0)
       leaves.append(arr(tuple(shp)))
-    tree = random_tree_of(rng, leaves)
     keep = bool(rng.random() < 0.5)
-    inp = dict(shapes=[list(l.shape) for l in leaves], axis=axis, keep_dims=keep)
-    ctx.case(('split_axis', repr(inp)), nontrivial=nleaves >= 1 and n >= 2)
-    st, res = real(lambda: pu.split_axis(tree, axis, keep))
-    ctx.dist[f'split_axis:{st}'] += 1
-    if st == 'ok':
-      trees = [jax.tree_util.tree_leaves(t) for t in res]
-      if keep:
-        impl = f'ok {enc_trees(trees, axis)}'
-      else:
-        impl = 'ok ' + ('/'.join(enc_arrs(t) for t in trees) if trees else 'N')
-    else:
-      impl = st
-    add(f'tree splitaxis {int(keep)} {enc_leaves(leaves, axis)}', 'split_axis', inp, impl)
-    if st == 'ok':
-      if keep:
-        st2, cat = real(lambda: pu.concat_along_axis(list(res), axis))
-        cl = jax.tree_util.tree_leaves(cat) if st2 == 'ok' else []
-      else:
-        st2 = 'ok'
-        cl = [np.stack([np.asarray(t[j]) for t in trees], axis) for j in range(nleaves)]
-      ctx.expect(st2 == 'ok' and same_arrays(cl, leaves), 'split-axis-roundtrip',
-                 're-assembling split_axis(x) does not give x', inp)
+    split_axis_case(leaves, axis, keep, 'unequal' if unequal else 'same-rank')
+
+  # keep_dims=True (and False) with a NON-LEADING axis: axis >= 1 and negative axes, leaves of several ranks in one tree
+  # (the singleton must stay at position `axis` of every leaf; concat_along_axis along the same axis restores the tree)
+  SPLIT_AXIS_CORNERS = [  # (leaf shapes, axis)
+      ([(3, 5)], 1), ([(2, 4, 3, 2), (2, 4, 1, 2)], 1), ([(3, 5), (2, 5), (1, 5, 2)], 1),
+      ([(2, 3, 4), (1, 2, 4, 2)], 2), ([(2, 3, 4), (5, 1, 4)], -1), ([(2, 3, 4), (5, 3, 1)], -2),
+      ([(2, 3), (3,)], -1), ([(3, 2), (2, 3, 2), (1, 2, 3, 2)], -2), ([(3, 1, 2)], 1), ([(2, 1)], -1),
+      ([(4,)], -1), ([(2, 3, 2)], -3), ([(2, 2), (3, 2, 1)], 1), ([(1, 3), (2, 3)], 1),
+  ]
+  for shapes, axis in SPLIT_AXIS_CORNERS:
+    for keep in (True, False):
+      split_axis_case([arr(shp) for shp in shapes], axis, keep, 'corner-non-leading')
+  for i in range(ctx.n(30, 300)):
+    nleaves = int(rng.choice([1, 2, 3]))
+    axis = int(rng.choice([1, 2, -1, -2, -3])) if i % 5 else int(rng.choice([0, -1]))
+    need = axis + 1 if axis >= 0 else -axis
+    n = int(rng.choice([1, 2, 3, 4]))
+    leaves = []
+    for j in range(nleaves):
+      nd = need + int(rng.integers(0, 3))
+      shp = list(rand_rest(nd))
+      shp[axis] = n
+      leaves.append(arr(tuple(shp)))
+    split_axis_case(leaves, axis, bool(i % 3 != 2), 'mixed-ranks')
 
   _mark('B pytrees')
   # ================================================================== C. spectral resampling
